@@ -19,7 +19,7 @@ func init() {
 	property("C18",
 		"Static conformance of the no-crash / termination / error-location mechanisms: (a) the only reachable panic is the invalid-UTF-8 panic in the lexer and its guard implies an invalid encoding (RuneError with width 1); no unchecked type assertion, no integer division, log.Fatal only in main; (b) every token loop of the parser consumes a token on every path of an iteration and cannot continue at exhausted input (abstract evaluation with every window token = EOF, callee summaries 'errors at EOF'); every lexer loop reads a character per iteration and its guard is false at end of input; other loops are ranges or bounded counters; (c) every index/slice expression is discharged by a dominating comparison (range key, i < len, len > 0, i == len-1, next = i+1 < len) or by a reviewed exemption naming one function and operand; map updates target maps created by the same component; (d) every error returned by a repo function is returned or tested, and the failure branch returns a non-nil error (except the two environment callees whose failure is by design only logged); (e) error ranges are ordered (start token is the current or an earlier captured token) and no error is built from a synthesised or possibly unassigned token; (f) the environment-error flag only ever enables an error return or a log line, and lint construction equals normal construction with the flag off. NOT decided: stack depth for pathologically nested input, the wall-clock bound, FormatText's string-offset loop.",
 		[]string{"isLetter(0) = unicode.IsDigit(0) = isHexDigit(0) = false", "once the lexer has returned EOF it returns EOF forever (readChar at end of input leaves ch = 0 and changes no position)", "exemptions listed in /verif/exemptions.json (each names one function and operand with a reason)", "configuration values (command_config.json) are outside the property's quantifier"},
-		"C18.a", "C18.b", "C18.c", "C18.d", "C18.e", "C18.f", "C16.c")
+		"C18.a", "C18.b", "C18.c", "C18.d", "C18.e", "C18.f", "C18.g", "C16.c", "C12.a", "C12.b")
 
 	register(&Rule{ID: "C18.a", Doc: "no reachable crash construct except the guarded invalid-UTF-8 panic", Floor: 4, Run: c18a})
 	register(&Rule{ID: "C18.b", Doc: "loops terminate: progress on every path, no continuation at exhausted input", Floor: 30, Run: c18b})
@@ -27,6 +27,7 @@ func init() {
 	register(&Rule{ID: "C18.d", Doc: "errors of repo functions are propagated; failure branches return an error", Floor: 60, Run: c18d})
 	register(&Rule{ID: "C18.e", Doc: "error ranges ordered; error tokens are real tokens", Floor: 60, Run: c18e})
 	register(&Rule{ID: "C18.f", Doc: "lint mode only removes errors", Floor: 9, Run: c18f})
+	register(&Rule{ID: "C18.g", Doc: "lexer progress: every token arm consumes at least one character (entry test implies the reader's guard)", Floor: 5, Run: c18g})
 }
 
 func libraryFuncs(c *Ctx) []*ssa.Function {
@@ -130,6 +131,24 @@ func (e *eofEval) decide(fn *ssa.Function, cond ssa.Value, lexer bool) int {
 	if lexer {
 		if m := chLit.FindStringSubmatch(t); m != nil {
 			if m[2] == "0" {
+				res = 1
+			} else {
+				res = 0
+			}
+		}
+		if m := regexpMust(`^\((\d+) (<=|<) \$0\.ch(![A-Za-z0-9@_]+)?\)$`).FindStringSubmatch(t); m != nil {
+			var k int
+			fmt.Sscan(m[1], &k)
+			if (m[2] == "<=" && k <= 0) || (m[2] == "<" && k < 0) {
+				res = 1
+			} else {
+				res = 0
+			}
+		}
+		if m := regexpMust(`^\(\$0\.ch(![A-Za-z0-9@_]+)? (<=|<) (\d+)\)$`).FindStringSubmatch(t); m != nil {
+			var k int
+			fmt.Sscan(m[3], &k)
+			if (m[2] == "<=" && 0 <= k) || (m[2] == "<" && 0 < k) {
 				res = 1
 			} else {
 				res = 0
@@ -1065,4 +1084,131 @@ func incOnly(v ssa.Value, p *ssa.Phi, seen map[ssa.Value]bool) (bool, int64) {
 		return true, min
 	}
 	return false, 0
+}
+
+// c18g: every arm of NextToken consumes at least one character before it returns. Arms
+// that consume only through a reader loop need the arm's entry test to imply the loop's
+// guard for the first character, otherwise NextToken would return an empty token without
+// advancing and the parser would never see EOF.
+func c18g(c *Ctx) {
+	fn := c.Fn("lexer.Lexer.NextToken")
+	rc := c.Fn("lexer.Lexer.readChar")
+	if fn == nil || rc == nil {
+		return
+	}
+	// consumers: readChar itself, and readers whose first iteration is guaranteed
+	type reader struct {
+		name  string
+		guard string // term of the loop guard on the current character (first disjunct)
+	}
+	guardOf := func(f *ssa.Function) []string {
+		var out []string
+		for _, b := range f.Blocks {
+			if !isLoopHeader(b) {
+				continue
+			}
+			// conditions under which the body (the readChar call) is reached
+			for x := range loopBody(b) {
+				for _, ci := range callsIn(f) {
+					if ci.Block() == x && callee(ci) == rc {
+						d := c.PC(f).At(x)
+						for _, cj := range d.cs {
+							if len(cj) == 1 {
+								out = append(out, cj[0])
+							}
+						}
+					}
+				}
+			}
+		}
+		return out
+	}
+	readersFirstIter := map[string][]string{}
+	for _, n := range []string{"readNumber", "readIdentifier", "readHexNumber"} {
+		if f := c.W.Method("lexer", "Lexer", n); f != nil {
+			readersFirstIter[n] = guardOf(f)
+		}
+	}
+	stripVer := func(s string) string { return regexpMust(`![A-Za-z0-9@_]+`).ReplaceAllString(s, "") }
+	// which reader calls are guaranteed to read at least one character
+	guaranteed := map[ssa.Instruction]string{}
+	for _, ci := range callsIn(fn) {
+		in := ci.(ssa.Instruction)
+		g := callee(ci)
+		if g == nil {
+			continue
+		}
+		switch {
+		case g == rc && !isInLoopRegion(in.Block()):
+			guaranteed[in] = "readChar"
+		case g.Name() == "readStringToken" || g.Name() == "readRaw":
+			guaranteed[in] = g.Name() + " consumes the opening delimiter"
+		default:
+			guards, ok := readersFirstIter[g.Name()]
+			if !ok {
+				continue
+			}
+			d := c.PC(fn).At(in.Block())
+			var conjs []conj
+			if d.unknown {
+				conjs = []conj{conj(c.PC(fn).Must(in.Block()))}
+			} else {
+				conjs = d.cs
+			}
+			all := len(conjs) > 0
+			for _, cj := range conjs {
+				has := false
+				for _, l := range cj {
+					for _, gl := range guards {
+						if stripVer(l) == stripVer(gl) {
+							has = true
+						}
+						// an ASCII digit arm satisfies unicode.IsDigit
+						if strings.HasPrefix(stripVer(gl), "+unicode.IsDigit($0.ch") && strings.HasPrefix(l, "+($0.ch") {
+							var k int
+							if _, err := fmt.Sscanf(l[strings.LastIndex(l, " == ")+4:], "%d)", &k); err == nil && k >= 48 && k <= 57 {
+								has = true
+							}
+						}
+					}
+				}
+				if !has {
+					all = false
+				}
+			}
+			if all {
+				guaranteed[in] = "entry test implies the guard of " + g.Name() + "'s loop"
+			}
+		}
+	}
+	isConsumer := func(in ssa.Instruction) bool { _, ok := guaranteed[in]; return ok }
+	// dispatch = first block after the comment loop
+	var dispatch *ssa.BasicBlock
+	for _, b := range fn.Blocks {
+		if isLoopHeader(b) {
+			for x := range loopBody(b) {
+				for _, sc := range x.Succs {
+					if !loopBody(b)[sc] {
+						dispatch = sc
+					}
+				}
+			}
+			break
+		}
+	}
+	if dispatch == nil {
+		c.Unk("NextToken/dispatch", c.W.FuncPos(fn), "cannot find the dispatch point")
+		return
+	}
+	n := 0
+	for _, r := range returnsOf(fn) {
+		if !dispatch.Dominates(r.Block()) {
+			continue
+		}
+		n++
+		rr := r
+		_, free := existsPath(pathQuery{from: point{dispatch, 0}, avoid: isConsumer, target: func(in ssa.Instruction) bool { return in == ssa.Instruction(rr) }})
+		c.Check(!free, fmt.Sprintf("NextToken/return#%d/consumes", n), c.W.Pos(r.Pos()), "every path from the dispatch to this return reads at least one character (or the end-of-input readChar)", "a path from the token dispatch to this return consumes no character (a reader loop whose guard is not implied by the arm's entry test): NextToken would return the same empty token forever and the parser would never reach EOF")
+	}
+	c.Check(n >= 5, "NextToken/returns", c.W.FuncPos(fn), fmt.Sprintf("%d non-queued returns", n), "too few returns found")
 }
